@@ -676,3 +676,116 @@ func TestVerifC16HTTP(t *testing.T) {
 type collectorFunc func(Trace)
 
 func (f collectorFunc) Complete(t Trace) { f(t) }
+
+// TestVerifC16SlotsRacy: the slot operations from real goroutines at the same time (the replay above
+// issues them one after the other).  TraceHandoff.tla makes every operation atomic, so whatever the
+// overlap, a round must look like SOME order of its operations: a parked waiter gets the trace of one of
+// the Complete calls - the first in that order -, the trace it holds never changes afterwards, a later
+// Await returns the same trace, no call panics.  Run under the race detector.
+func TestVerifC16SlotsRacy(t *testing.T) {
+	out, err := verifutil.NewOut(verifutil.Env("VERIF_OUT", "slotsracy.ndjson"))
+	if err != nil {
+		t.Fatal(err)
+	}
+	defer out.Close()
+	n := verifutil.EnvInt("VERIF_N", 3000)
+	tr := &Tracer{}
+	bad := 0
+	for round := 0; round < n && bad < 5; round++ {
+		name := fmt.Sprintf("racy/%d", round)
+		other := fmt.Sprintf("racy-other/%d", round)
+		tr.Init(name)
+		completers := 2 + round%2
+		type got struct {
+			id    int
+			err   string
+			trace *Trace
+		}
+		waiterRes := make(chan got, 1)
+		ctx, cancel := context.WithTimeout(context.Background(), 20*time.Second)
+		parked := round%3 != 0 // sometimes the waiter arrives together with the completers instead
+		startWaiter := func() {
+			go func() {
+				t, err := tr.Await(ctx, name)
+				g := got{id: -1, trace: t}
+				if err != nil {
+					g.err = err.Error()
+				} else if t != nil && t.Err != nil {
+					fmt.Sscanf(t.Err.Error(), "id%d", &g.id)
+				}
+				waiterRes <- g
+			}()
+		}
+		if parked {
+			startWaiter()
+			time.Sleep(50 * time.Microsecond)
+		}
+		var wg sync.WaitGroup
+		gate := make(chan struct{})
+		var panics atomic.Int64
+		var firstPanic atomic.Value
+		for k := 1; k <= completers; k++ {
+			wg.Add(1)
+			go func(k int) {
+				defer wg.Done()
+				defer func() {
+					if r := recover(); r != nil {
+						panics.Add(1)
+						firstPanic.CompareAndSwap(nil, fmt.Sprint(r))
+					}
+				}()
+				<-gate
+				tr.Complete(Trace{TestName: name, Err: fmt.Errorf("id%d", k)})
+			}(k)
+		}
+		wg.Add(1)
+		go func() { // traffic on another name at the same time
+			defer wg.Done()
+			<-gate
+			tr.Init(other)
+			tr.Complete(Trace{TestName: other, Err: errors.New("id9")})
+			tr.Clear(other)
+		}()
+		if !parked {
+			startWaiter()
+		}
+		close(gate)
+		wg.Wait()
+		g := <-waiterRes
+		cancel()
+		what := ""
+		switch {
+		case panics.Load() > 0:
+			what = fmt.Sprintf("%d Complete call(s) panicked: %v", panics.Load(), firstPanic.Load())
+		case g.err != "":
+			what = "the waiter got an error: " + g.err
+		case g.id < 1 || g.id > completers:
+			what = fmt.Sprintf("the waiter got a trace that no Complete call delivered (id %d)", g.id)
+		default:
+			// first wins: the delivered trace does not change, and a second Await sees the same one
+			time.Sleep(20 * time.Microsecond)
+			id2 := -1
+			if g.trace != nil && g.trace.Err != nil {
+				fmt.Sscanf(g.trace.Err.Error(), "id%d", &id2)
+			}
+			ctx2, cancel2 := context.WithTimeout(context.Background(), 5*time.Second)
+			t2, err2 := tr.Await(ctx2, name)
+			cancel2()
+			id3 := -1
+			if err2 == nil && t2 != nil && t2.Err != nil {
+				fmt.Sscanf(t2.Err.Error(), "id%d", &id3)
+			}
+			if id2 != g.id {
+				what = fmt.Sprintf("the trace handed to the waiter changed after delivery: id %d became id %d", g.id, id2)
+			} else if id3 != g.id {
+				what = fmt.Sprintf("a second Await returned another trace (id %d, err %v) than the first (id %d)", id3, err2, g.id)
+			}
+		}
+		tr.Clear(name)
+		if what != "" {
+			bad++
+			out.Put(map[string]any{"kind": "slots-racy", "round": round, "completers": completers, "parked": parked, "what": what})
+		}
+	}
+	out.Put(map[string]any{"summary": true, "rounds": n})
+}
